@@ -113,6 +113,13 @@ theorem migrate_ints : Gen.migrateReportsInts = List.replicate 9 "2016" := by de
 /-- Authorization: the file write precedes every memory update. -/
 theorem save_equipment_order : Gen.saveEquipmentOrder =
     ["Write", "addRecentEquipmentAuth", "=gcas.equipment[ea.ShortID]", "=gcas.equipmentBans[ea.ShortID]"] := by decide
+/-- The three append-only logs are written with exactly one `Write` call per record (and the file is
+used for nothing else but the deferred `Close`): a record is never visible half-written to a concurrent
+reader of the archive, and a process crash leaves whole records only. -/
+theorem single_write_per_record :
+    Gen.fileUsesSaveReport = ["file.Close", "file.Write"] ∧
+    Gen.fileUsesSaveEquipment = ["file.Close", "file.Write"] ∧
+    Gen.fileUsesSaveStats = ["file.Close", "file.Write"] := by decide
 /-- Registration: the file write precedes adopting the key. -/
 theorem save_gca_key_order : Gen.saveGCAKeyOrder =
     ["WriteFile", "=server.gcaPubkey", "=server.gcaPubkeyAvailable"] := by decide
